@@ -323,3 +323,101 @@ def _add_cal_date(a, pre):
     if entry == "plus_neg_dur":
         return x + (-d)
     raise ValueError(entry)
+
+
+# ---------------------------------------------------------------- C05 / C06
+def _native(x):
+    if isinstance(x, _dt.datetime):
+        return _dt.datetime(x.year, x.month, x.day, x.hour, x.minute, x.second, x.microsecond, tzinfo=x.tzinfo,
+                            fold=x.fold)
+    return _dt.date(x.year, x.month, x.day)
+
+
+def _sm(n, base):
+    n = int(n)
+    sg = (n > 0) - (n < 0)
+    n = abs(n)
+    return [sg, [n // base, n % base]] if base else [sg, n]
+
+
+def rel_of(a, b):
+    if not isinstance(a, _dt.datetime):
+        return "date"
+    if a.tzinfo is None:
+        return "naive"
+    if a.tzinfo is b.tzinfo:
+        return "same-object"
+    za, _ = proj.zref(a.tzinfo)
+    zb, _ = proj.zref(b.tzinfo)
+    return "same-name" if za == zb else "different"
+
+
+@op("iv_len")
+def _iv_len(a, pre):
+    p = P()
+    x, y = pre
+    a["rel"] = rel_of(x, y)
+    en = a["entry"]
+    if en == "interval":
+        iv = p.interval(x, y)
+    elif en == "interval_abs":
+        iv = p.interval(x, y, absolute=True)
+    elif en == "Interval":
+        iv = p.Interval(x, y)
+    elif en == "sub":
+        iv = y - x
+    elif en == "diff":
+        iv = x.diff(y, False)
+    elif en == "diff_default":
+        iv = x.diff(y)
+    elif en == "abs":
+        iv = abs(y - x)
+    elif en == "sub_native":
+        iv = y - _native(x)
+    elif en == "rsub_native":
+        iv = _native(y) - x
+    else:
+        raise ValueError(en)
+    r = enc(iv)
+    if r["k"] == "iv":
+        r["ins"] = _sm(iv.in_seconds(), 86400)
+        r["inm"] = _sm(iv.in_minutes(), 1440)
+        r["inh"] = _sm(iv.in_hours(), 0)
+    return r
+
+
+@op("iv_comp")
+def _iv_comp(a, pre):
+    p = P()
+    x, y = pre
+    a["rel"] = rel_of(x, y)
+    iv = p.Interval(x, y) if a.get("entry") == "Interval" else (y - x)
+    c = [iv.years, iv.months, iv.weeks, iv.remaining_days, iv.hours, iv.minutes, iv.remaining_seconds,
+         iv.microseconds]
+    import pendulum._helpers as PH
+
+    nx, ny = _native(x), _native(y)
+    py = [int(v) for v in PH.precise_diff(nx, ny)]
+    try:
+        import pendulum._pendulum as RS
+
+        d = RS.precise_diff(nx, ny)
+        rs = [d.years, d.months, d.days, d.hours, d.minutes, d.seconds, d.microseconds, d.total_days]
+    except ImportError:
+        rs = py
+    res = {"k": "ivc", "c": [int(v) for v in c], "in_months": int(iv.in_months()), "py": py, "rs": rs,
+           "total_days": int(iv.in_days())}
+    if isinstance(x, _dt.datetime):
+        try:
+            res["sum"] = enc(x + iv)
+        except Exception as e:  # noqa: BLE001
+            res["sum"] = enc(e)
+        try:
+            res["addc"] = enc(x.add(years=c[0], months=c[1], weeks=c[2], days=c[3], hours=c[4], minutes=c[5],
+                                    seconds=c[6], microseconds=c[7]))
+        except Exception as e:  # noqa: BLE001
+            res["addc"] = enc(e)
+    else:
+        res["sum"] = {"k": "none"}
+        res["addc"] = {"k": "none"}
+    return res
